@@ -1,128 +1,156 @@
 (* C17 -- Sweeping provider advertises every key to its closest peers, on schedule.
+   FINAL STATE, for /repo with the six C17 repairs (1c8fa8f 31492f2 2d99c97 22c8252 7d0480f
+   b36ad55).  PARTIAL: see "verified monitor" below.
 
-   PARTIAL.  What is what:
+   PROVED FOR ALL INPUTS (Gallina models, induction; compared with the Go code at every run):
+     1-2   the buffered wrapper as it is now (Model/Buffered.v, primary model): batched
+           execution of the queued operations = one-by-one execution on keystore
+           membership, for every operation list incl. undecodable items and every way of
+           cutting it into batches (c17_buffered_equiv, .._batch_size); on the keys waiting
+           to be advertised: no more than one-by-one execution, and all of them unless the
+           key was already kept (c17_buffered_advertises_no_more / _all, unconditional);
+     3     the two FORMER protocols of the wrapper, kept as descriptions of the code before
+           7d0480f / b36ad55, with what held of them (.._old_protocol_equiv,
+           .._old_protocol_advertises_all_partial) and their refutations
+           (.._old_protocol_once_after_stop_refuted, .._old_protocol_bad_item_refuted);
+     7-11  pure pieces of provider.go (Model/Sweep.v part B): reprovideTimeForPrefix offsets
+           inside the cycle, monotone, distinct per prefix length, split regions never
+           earlier; timeBetween in [1, interval]; the min(.., now+interval+maxDelay) rule
+           never binds (WithMaxReprovideDelay has no effect on the schedule); the schedule
+           trie under schedulePrefixNoLock stays prefix-free, Trie.Add never panics.
 
-   THEOREMS ABOUT THE MODEL (all inputs, unbounded, by induction):
-     1-5   the buffered wrapper (Model/Buffered.v): batched execution of the queued
-           operations = one-by-one execution on keystore membership, for every operation
-           list and every way of cutting it into batches; what it does to the keys
-           waiting to be advertised (two refuted clauses = defects of the real code,
-           replayed by the harness on the real wrapper over the real SweepingProvider);
-     7-12  pure pieces of provider.go (Model/Sweep.v part B): reprovide schedule
-           arithmetic (offsets inside the cycle, order, distinctness, split regions,
-           timeBetween, the dead min-rule) and the schedule trie staying prefix-free
-           (no Panic from Trie.Add) -- each compared with the real function on generated
-           inputs at every run.
+   VERIFIED MONITOR ON RECORDED TRACES (not a proof of the Go worker pool):
+     6     [Level0] specifies the property on a time-stamped trace of what the environment
+           did (StartProviding / ProvideOnce / StopProviding / network up-down / swarm
+           changes / restarts) and of the ADD_PROVIDER messages the real SweepingProvider
+           got accepted; c17_accepts_sound proves  accepts p tr = true -> Level0 p tr,
+           c17_sweep_end_to_end_partial spells the clauses out.  The harness records the
+           trace of the real provider (testing/synctest, router reporting the exact 20
+           nearest, recording sender) and Coq evaluates [accepts] on it.  Clauses of the
+           property text that are established this way only: every given key advertised to
+           the r XOR-nearest peers of the swarm of that moment with the current addresses;
+           re-advertised within interval + allowed delay while online, across swarm growth
+           / shrink / replacement, worker configurations, outages with catch-up, restarts
+           with work queued at Close; stopped keys silent; ProvideOnce honoured.
+           MISSING: that every trace of the Go code is accepted.
 
-   MONITORED ONLY (a verified monitor on real traces, NOT a proof of the Go worker pool):
-     6     [Level0] is the specification of the property on a time-stamped trace of what
-           the environment did (StartProviding / ProvideOnce / StopProviding / network
-           up-down / swarm changes / restarts) and of the ADD_PROVIDER messages the
-           real SweepingProvider got accepted.  [accepts] is an executable acceptor and
-           c17_accepts_sound proves  accepts p tr = true -> Level0 p tr.  The harness
-           records the trace of the real provider (testing/synctest, exact-K-nearest
-           router, recording sender) and Coq evaluates [accepts] on it.  The clauses of
-           the property text that are only monitored: every given key advertised to the
-           r XOR-nearest peers of the swarm of that moment with the current addresses
-           (l0_nearest, l0_fresh), re-advertised within interval + allowed delay while
-           online incl. swarm growth/shrink, worker configurations, outages with
-           catch-up and restarts (l0_fresh), stopped keys not advertised again (l0_stop),
-           ProvideOnce (l0_once).
-
-   NOT covered: the exploration loop closestPeersToPrefix is exercised only through the
-   traces (no model); provider/dual is not driven; message/lookup latency is zero in the
-   generated environments (worker configurations vary but workers never queue up). *)
+   NOT MODELLED / CUT: the exploration loop closestPeersToPrefix (only exercised through
+   the traces); the alarm / cursor logic of schedulePrefixNoLock and handleReprovide (only
+   through the traces: reverting 2d99c97 or 22c8252 is caught there); provider/dual;
+   ADD_PROVIDER messages take no virtual time (lookups take 0-2 s); a restart during an
+   outage and keys first given during an outage and given again without force are not
+   generated (ASSUMPTIONS in props/C17.py). *)
 From Verif.Lib Require Import GoSem Bits.
 From Verif.Model Require Import Buffered Sweep Trie Keyspace.
 From Verif.Proofs Require Import BufferedProofs SweepProofs KeyspaceBase.
 Local Open Scope N_scope.
 
-(* ---- 1. buffered wrapper: same keystore as one-by-one execution ------------------------------
-   For every list of batches of queued operations (however the worker's GetN cut the
-   queue), every initial state of the wrapped provider and every key: the key is kept
-   after the batched calls iff it is kept after applying the operations one by one. *)
+(* ---- 1. buffered wrapper (the code as it is: /repo 7d0480f, b36ad55): same keystore as
+   one-by-one execution.  For every list of batches of queued operations (however the
+   worker's GetN cut the queue), undecodable items included (skipped by both), every
+   initial state of the wrapped provider and every key: the key is kept after the batched
+   calls iff it is kept after applying the operations one by one. *)
 Theorem c17_buffered_equiv :
-  forall (batches : list (list bop)) (s : inner),
-    Forall (fun c => valid_ops c = true) batches ->
-    forall k, In k (ks (i_run s (flat_map batch_calls batches)))
-              <-> In k (ks (i_run s (seq_calls (concat batches)))).
-Proof. exact buffered_keystore_same_set. Qed.
+  forall (batches : list (list bop)) (s : inner) (k : N),
+    kin k (i_run s (flat_map batch_calls batches)) = kin k (i_run s (seq_calls (concat batches))).
+Proof. exact fix_ks_equiv. Qed.
 Print Assumptions c17_buffered_equiv.
 
 (* the worker's own cutting: consecutive chunks of batchSize items *)
 Theorem c17_buffered_equiv_batch_size :
   forall (batch_size : nat) (l : list bop) (s : inner) (k : N),
-    (0 < batch_size)%nat -> valid_ops l = true ->
+    (0 < batch_size)%nat ->
     kin k (i_run s (worker_calls batch_size l)) = kin k (i_run s (seq_calls l)).
-Proof. exact buffered_ks_equiv. Qed.
+Proof. exact ks_equiv_batch_size. Qed.
 Print Assumptions c17_buffered_equiv_batch_size.
 
-(* ---- 2. keys waiting to be advertised: a batch never queues a key that one-by-one
-   execution would not queue ... *)
+(* ---- 2. keys waiting to be advertised, unconditionally: a batch queues no key that
+   one-by-one execution would not queue, and queues every key one-by-one execution queues
+   unless the key was already kept before the batch (StopProviding(k); StartProviding(k) of
+   a kept key is cancelled out: the schedule keeps advertising k) *)
 Theorem c17_buffered_advertises_no_more :
   forall (l : list bop) (s : inner) (k : N),
-    valid_ops l = true ->
     pin k (i_run s (batch_calls l)) = true -> pin k (i_run s (seq_calls l)) = true.
-Proof. exact buffered_pend_sub. Qed.
+Proof. intros l s k. exact (proj1 (fix_pend l s k)). Qed.
 Print Assumptions c17_buffered_advertises_no_more.
 
-(* ---- 3. ... and queues every key one-by-one execution queues, unless the key was already
-   kept before the batch (then the schedule advertises it) -- PARTIAL: only for batches in
-   which no ProvideOnce(k) follows a StopProviding(k) *)
-Theorem c17_buffered_advertises_all_partial :
+Theorem c17_buffered_advertises_all :
+  forall (l : list bop) (s : inner) (k : N),
+    pin k (i_run s (seq_calls l)) = true -> pin k (i_run s (batch_calls l)) = true \/ kin k s = true.
+Proof. intros l s k. exact (proj2 (fix_pend l s k)). Qed.
+Print Assumptions c17_buffered_advertises_all.
+
+(* ---- 3. THE FORMER PROTOCOLS (descriptions of the code before the two commits; Run_C17 does
+   not accept their calls any more).
+   (a) one stop group executed last: keystore equivalence held for decodable items ... *)
+Theorem c17_buffered_old_protocol_equiv :
+  forall (batches : list (list bop)) (s : inner),
+    Forall (fun c => valid_ops c = true) batches ->
+    forall k, In k (ks (i_run s (flat_map old_batch_calls batches)))
+              <-> In k (ks (i_run s (seq_calls (concat batches)))).
+Proof. exact buffered_keystore_same_set. Qed.
+Print Assumptions c17_buffered_old_protocol_equiv.
+
+(* ... and "advertises all" only for batches without a ProvideOnce(k) after a StopProviding(k) *)
+Theorem c17_buffered_old_protocol_advertises_all_partial :
   forall (l : list bop) (s : inner) (k : N),
     valid_ops l = true -> no_once_after_stop l = true ->
     pin k (i_run s (seq_calls l)) = true ->
-    pin k (i_run s (batch_calls l)) = true \/ kin k s = true.
+    pin k (i_run s (old_batch_calls l)) = true \/ kin k s = true.
 Proof. exact buffered_pend_sup. Qed.
-Print Assumptions c17_buffered_advertises_all_partial.
+Print Assumptions c17_buffered_old_protocol_advertises_all_partial.
 
-(* ---- 4. REFUTED without that hypothesis: StopProviding(k); ProvideOnce(k) in one batch is
-   executed as ProvideOnce(k); StopProviding(k), and StopProviding removes k from the
-   provide queue: k is never advertised (replayed on the real code: Run_C17 code 4) *)
-Theorem c17_buffered_once_after_stop_refuted :
+(* REFUTED for the former protocol: StopProviding(k); ProvideOnce(k) in one batch was executed
+   as ProvideOnce(k); StopProviding(k), and StopProviding removes k from the provide queue:
+   k was never advertised (replayed on the real code before b36ad55: Run_C17 code 4) *)
+Theorem c17_buffered_old_protocol_once_after_stop_refuted :
   exists (l : list bop) (s : inner) (k : N),
     valid_ops l = true /\
-    pin k (i_run s (seq_calls l)) = true /\ pin k (i_run s (batch_calls l)) = false /\ kin k s = false.
+    pin k (i_run s (seq_calls l)) = true /\ pin k (i_run s (old_batch_calls l)) = false /\ kin k s = false.
 Proof. exact buffered_once_after_stop_lost. Qed.
-Print Assumptions c17_buffered_once_after_stop_refuted.
+Print Assumptions c17_buffered_old_protocol_once_after_stop_refuted.
 
-(* ---- 5. REFUTED for undecodable items: one queued item whose key is not a valid multihash
-   makes getOperations fail and the worker drop the WHOLE batch (Run_C17 code 5) *)
-Theorem c17_buffered_bad_item_drops_batch :
-  forall l, valid_ops l = false -> batch_calls l = [].
+(* (b) REFUTED for the former protocol: one undecodable item dropped the WHOLE batch
+   (before 7d0480f: Run_C17 code 5) *)
+Theorem c17_buffered_old_protocol_bad_item_drops_batch :
+  forall l, valid_ops l = false -> old_batch_calls l = [].
 Proof. exact buffered_bad_item_drops_batch. Qed.
-Print Assumptions c17_buffered_bad_item_drops_batch.
+Print Assumptions c17_buffered_old_protocol_bad_item_drops_batch.
 
-Theorem c17_buffered_bad_item_refuted :
+Theorem c17_buffered_old_protocol_bad_item_refuted :
   exists (l : list bop) (s : inner) (k : N),
-    In k (ks (i_run s (seq_calls l))) /\ ~ In k (ks (i_run s (batch_calls l))).
+    In k (ks (i_run s (seq_calls l))) /\ ~ In k (ks (i_run s (old_batch_calls l))).
 Proof.
   exists [BStart 1; BBad], {| ks := []; pend := [] |}, 1. split.
   - vm_compute. left. reflexivity.
   - vm_compute. tauto.
 Qed.
-Print Assumptions c17_buffered_bad_item_refuted.
-
-(* ---- 5'. the proposed repair of getOperations / worker (transcribed as fix_batch_calls) meets
-   both clauses without side conditions, undecodable items included *)
-Theorem c17_buffered_fix_equiv :
-  forall (batches : list (list bop)) (s : inner) (k : N),
-    kin k (i_run s (flat_map fix_batch_calls batches)) = kin k (i_run s (seq_calls (concat batches))).
-Proof. exact fix_ks_equiv. Qed.
-Print Assumptions c17_buffered_fix_equiv.
-
-Theorem c17_buffered_fix_advertises :
-  forall (l : list bop) (s : inner) (k : N),
-    (pin k (i_run s (fix_batch_calls l)) = true -> pin k (i_run s (seq_calls l)) = true) /\
-    (pin k (i_run s (seq_calls l)) = true -> pin k (i_run s (fix_batch_calls l)) = true \/ kin k s = true).
-Proof. exact fix_pend. Qed.
-Print Assumptions c17_buffered_fix_advertises.
+Print Assumptions c17_buffered_old_protocol_bad_item_refuted.
 
 (* ---- 6. the trace acceptor is sound (verified monitor) ------------------------------------------ *)
 Theorem c17_accepts_sound : forall p tr, accepts p tr = true -> Level0 p tr.
 Proof. exact accepts_sound. Qed.
 Print Assumptions c17_accepts_sound.
+
+(* The end-to-end clauses of the property, as far as they are established: for every trace
+   the acceptor accepts.  PARTIAL -- missing: that every trace of the Go SweepingProvider
+   is accepted (checked on recorded traces at every run, not proved). *)
+Theorem c17_sweep_end_to_end_partial :
+  forall p tr, accepts p tr = true ->
+    (* sent only to the K nearest of the swarm of that moment, with the current addresses *)
+    (forall pre t k qs a post, tr = pre ++ ESent t k qs a :: post ->
+        a = true /\ forall q, In q qs -> nearestb (p_K p) k (w_swarm (st_of pre)) q = true) /\
+    (* kept + online for the last G  =>  advertised to all r nearest within the last D *)
+    (forall k t, p_G p <= t -> t <= p_end p ->
+        (forall t', t - p_G p <= t' -> t' <= t -> okb k (st_at tr t') = true) -> fresh p tr k t) /\
+    (* stopped keys are not advertised again *)
+    (forall pre t ks post1 t' k qs a post2,
+        tr = pre ++ EStop t ks :: post1 ++ ESent t' k qs a :: post2 -> In k ks ->
+        t' <= t + p_W p \/ exists e, In e post1 /\ requests k e = true).
+Proof.
+  intros p tr H. destruct (accepts_sound p tr H) as [A B C _]. split; [exact A|split; [exact B|exact C]].
+Qed.
+Print Assumptions c17_sweep_end_to_end_partial.
 
 (* ---- 7. reprovide schedule arithmetic: offsets lie inside the cycle ------------------------------- *)
 Theorem c17_schedule_offset_in_cycle :
